@@ -190,28 +190,55 @@ def compare_seq(beh, job, rec):
     """direct comparison of every observed result with the generator's (deterministic part only).
     -> (steered, first mismatch or None)"""
     inv = {v: k for k, v in job["kmap"].items()}
-    ticked, short_before_tick, steered = False, False, True
+    timed = any(x["op"] == "tick" or x["e"] == "short" for x in beh["steps"])
+    ticked = False
     for s, o in zip(beh["steps"], rec["obs"]):
         if s["op"] == "tick":
             ticked = True
-            continue
-        want_ph = 2 if ticked else 0
-        timed = any(x["op"] == "tick" or x["e"] == "short" for x in beh["steps"])
-        if timed and o["ph"] != want_ph:
-            steered = False      # the machine was too slow to stay in the intended phase; leg C still decides
+        elif timed and o["ph"] != (2 if ticked else 0):
+            # the machine was too slow to stay in the intended phase: no direct comparison for this
+            # replay; the exact trace validation (measured phases) still decides
+            return False, None
+    ticked, short_before_tick = False, False
+    for s, o in zip(beh["steps"], rec["obs"]):
+        if s["op"] == "tick":
+            ticked = True
             continue
         if s["op"] == "store" and s["e"] == "short" and not ticked:
             short_before_tick = True
         ambiguous = ticked and short_before_tick   # expired entries may or may not have been swept
         if s["op"] == "get" and o["res"] != s["res"]:
-            return steered, {"step": s, "observed": o}
+            return True, {"step": s, "observed": o}
         if s["op"] == "len" and not ambiguous and o["res"] != s["res"]:
-            return steered, {"step": s, "observed": o}
+            return True, {"step": s, "observed": o}
         if s["op"] == "range" and not ambiguous:
             got = sorted((inv.get(k, -k), v) for k, v in o["rng"])
             if got != sorted((k, v) for k, v in s["rng"]):
-                return steered, {"step": s, "observed": o}
-    return steered, None
+                return True, {"step": s, "observed": o}
+    return True, None
+
+
+def compare_lru(ctx, behs, recs):
+    """extra coverage: pkg/lru replays; every answer / callback list / final order must equal the spec's"""
+    bad = 0
+    for r in recs:
+        b = behs[r["id"]]
+        first = None
+        for i, st in enumerate(b["steps"]):
+            want_ev = [[e["k"], e["v"]] for e in st["ev"]]
+            if r["outs"][i] != st["out"] or r["evs"][i] != want_ev:
+                first = (st["op"], "step %d %s(k=%s,S=%s): the specification requires answer %s and evictions %s, the code "
+                         "answered %s and evicted %s" % (i + 1, st["op"], st["k"], st["s"], st["out"], want_ev,
+                                                         r["outs"][i], r["evs"][i]))
+                break
+        want_final = [[e["k"], e["v"]] for e in b["final"]]
+        if first is None and r["final"] != want_final:
+            first = ("order", "final order (oldest first) should be %s, is %s" % (want_final, r["final"]))
+        if first:
+            bad += 1
+            ctx.violation("lru:%s" % first[0], "pkg/lru, max=%d: %s" % (b["max"], first[1]),
+                          {"kind": "lru", "job": r["job"], "beh": b})
+    return bad
 
 
 # ----------------------------------------------------------------------------------------------
@@ -272,7 +299,7 @@ def validate(ctx, kind, recs, cfg, label):
 
 def report_races(ctx, stderr, job_desc):
     reps, harness_only = race_reports(stderr)
-    seen = set()
+    seen = ctx.__dict__.setdefault("_c11_races_seen", set())
     for sig, text in reps:
         if sig in seen:
             continue
@@ -325,6 +352,13 @@ def replay(ctx):
         ctx.cov["evaluations"] = 150 * 6 * 5
         return
     j = d["job"]
+    if kind == "lru":
+        recs, stderr, rc = run_drv(ctx, binary, {"lru": [dict(j, id=0)]})
+        if rc not in (0, 66) and not classify_death(ctx, stderr, rc, j):
+            raise vlib.Infra("driver exited %d:\n%s" % (rc, stderr[-3000:]))
+        compare_lru(ctx, [d["beh"]], [r for r in recs if r["kind"] == "lru"])
+        ctx.cov["evaluations"] = len(j["steps"])
+        return
     if kind == "hist":
         jobs = [dict(j, id=i, seed=j["seed"] + i) for i in range(40)]
         recs, stderr, rc = run_drv(ctx, binary, {"hist": jobs, "workers": 4})
@@ -386,6 +420,11 @@ def run(ctx):
                     raise vlib.Infra("non-vacuity: deviation %s should violate %s, TLC says %r" % (what[0], what[1], res["violated"]))
                 nonvac.append("%s violated under Dev=%s" % (what[1], what[0]))
     ctx.cov["non_vacuity"] = nonvac
+    if T:
+        vlib.tlc_mc(ctx, "CacheStore", "CacheStore_design_all.cfg", coverage=True, workers=6, timeout=1200,
+                    label="design, every operation type + expiry classes, with -coverage (vacuity)")
+        vlib.tlc_mc(ctx, "CacheStore", "CacheStore_design_sim.cfg", simulate=5000, depth=80, workers=4, timeout=1200,
+                    label="design, simulation: 3 threads x 3 calls, 3 keys, capacity 2, sizes {0,1,3}")
     log("leg A non-vacuity: %d deviations each violate their invariant" % len(nonvac))
 
     # ---- leg B generator ----------------------------------------------------------------------
@@ -402,13 +441,22 @@ def run(ctx):
                        depth=70, cfg_text=gen_del)
         behs = f1.result() + f2.result()
     sjobs = seq_jobs(rng, behs)
+    # extra coverage: pkg/lru against spec/LRU.tla
+    vlib.tlc_mc(ctx, "LRU", "LRU_design.cfg", workers=2, label="extra: LRU.tla exhaustive (3 keys, max 1..2, 5 calls)")
+    lbehs = vlib.tlc_behaviours(ctx, "LRU", "LRU_gen.cfg", simulate=600 if T else 100, depth=20)
+    ljobs = [{"id": i, "max": b["max"],
+              "steps": [{"op": st["op"], "k": st["k"], "v": st["v"], "s": st["s"]} for st in b["steps"]]}
+             for i, b in enumerate(lbehs)]
 
     # ---- driver -------------------------------------------------------------------------------
     binary = vlib.go_build(ctx, "drv_cachestore", race=True)
-    hjobs = hist_jobs(rng, 5000 if T else 500)
+    hjobs = hist_jobs(rng, 12000 if T else 400)
     cjobs = cap_jobs()
     t0 = time.time()
-    recs, stderr, rc = run_drv(ctx, binary, {"hist": hjobs, "seq": sjobs, "cap": cjobs, "workers": 4}, timeout=1500)
+    # one history (<= 4 goroutines) per 4 available CPUs, so that the goroutines of a history really run in parallel
+    ncpu = len(os.sched_getaffinity(0)) if hasattr(os, "sched_getaffinity") else 4
+    recs, stderr, rc = run_drv(ctx, binary, {"hist": hjobs, "seq": sjobs, "cap": cjobs, "lru": ljobs, "workers": max(1, min(4, ncpu // 4))},
+                               timeout=1500)
     log("driver: %d histories, %d sequential replays, %d capacity runs in %.1fs (exit %d)" % (
         len(hjobs), len(sjobs), len(cjobs), time.time() - t0, rc))
     died = rc not in (0, 66)
@@ -417,6 +465,7 @@ def run(ctx):
     hist = sorted([r for r in recs if r["kind"] == "hist"], key=lambda r: r["id"])
     seq = sorted([r for r in recs if r["kind"] == "seq"], key=lambda r: r["id"])
     capr = sorted([r for r in recs if r["kind"] == "cap"], key=lambda r: r["id"])
+    lrur = sorted([r for r in recs if r["kind"] == "lru"], key=lambda r: r["id"])
     n_race, harness_only = report_races(ctx, stderr, "hist+seq+cap")
 
     # hammer (unrecorded) in its own process; stop at the first report (reports are slow), then
@@ -448,6 +497,10 @@ def run(ctx):
                               bad["step"]["rng"] if bad["step"]["op"] == "range" else bad["step"]["res"],
                               bad["observed"]["rng"] if bad["step"]["op"] == "range" else bad["observed"]["res"]),
                           {"kind": "seq", "job": {k: j[k] for k in ("target", "size", "steps")}, "events": r["events"]})
+    lru_bad = compare_lru(ctx, lbehs, lrur)
+    ctx.cov["extra_lru"] = {"behaviours_replayed": len(lrur), "steps_compared": sum(len(r["outs"]) for r in lrur),
+                            "mismatches": lru_bad,
+                            "what": "pkg/lru vs spec/LRU.tla: every answer, onEvict callback sequence and the final order"}
     ctx.cov["sequential_replays"] = len(seq)
     ctx.cov["sequential_replays_in_phase"] = steered
     ctx.cov["sequential_result_mismatches"] = mism
@@ -491,10 +544,10 @@ def run(ctx):
             raise vlib.Infra("race report without mosdns frames on both sides (harness race?):\n" + harness_only[0])
         if died:
             raise vlib.Infra("driver exited %d:\n%s" % (rc, stderr[-3000:]))
-        if len(hist) != len(hjobs) or len(seq) != len(sjobs) or len(capr) != len(cjobs):
+        if len(hist) != len(hjobs) or len(seq) != len(sjobs) or len(capr) != len(cjobs) or len(lrur) != len(ljobs):
             raise vlib.Infra("driver returned %d/%d/%d records for %d/%d/%d jobs" % (
                 len(hist), len(seq), len(capr), len(hjobs), len(sjobs), len(cjobs)))
-        if len(contended) < len(hist) // 10:
+        if len(contended) < len(hist) // 40:
             raise vlib.Infra("dead driver: only %d of %d histories have overlapping conflicting operations" % (
                 len(contended), len(hist)))
         if hits < nops // 50:
